@@ -445,6 +445,25 @@ def extract():
         if k not in flags:
             raise TranslatorError("gzip flag %s not found" % k)
     facts["gzflags"] = flags
+    # MMCMP bit-width tables and flag bits
+    mm = strip_comments(read("src/depackers/mmcmp.c"))
+    tabs = {}
+    for nm in ("cmd_8bits", "fetch_8bit", "cmd_16bit", "fetch_16bit"):
+        m = re.search(r"static\s+const\s+uint32\s+%s\s*\[\s*(\d+)\s*\]\s*=\s*\{(.*?)\}" % nm, mm, re.S)
+        if not m:
+            raise TranslatorError("mmcmp table %s not found" % nm)
+        vals = [int(x, 0) for x in re.findall(r"0x[0-9a-fA-F]+|\d+", m.group(2))]
+        if len(vals) != int(m.group(1)):
+            raise TranslatorError("mmcmp table %s: %d values, declared %s" % (nm, len(vals), m.group(1)))
+        tabs[nm] = vals
+    if len(tabs["cmd_8bits"]) != 8 or len(tabs["fetch_8bit"]) != 8 or len(tabs["cmd_16bit"]) != 16 or len(tabs["fetch_16bit"]) != 16:
+        raise TranslatorError("mmcmp tables: unexpected sizes")
+    facts["mmcmp_tables"] = tabs
+    mmflags = {k: int(v, 0) for k, v in re.findall(r"#define\s+MMCMP_(\w+)\s+(0x[0-9a-fA-F]+)", mm)}
+    for k in ("COMP", "DELTA", "16BIT", "ABS16"):
+        if k not in mmflags:
+            raise TranslatorError("MMCMP_%s not found" % k)
+    facts["mmcmp_flags"] = mmflags
     # xz dictionary cap
     xz = strip_comments(read("src/depackers/unxz.c"))
     m = re.search(r"#define\s+XZ_MAX_DICT\s+\(\s*(\d+)\s*<<\s*(\d+)\s*\)", xz)
@@ -547,6 +566,18 @@ def render(f):
     L.append("def arcUnpackedOld : Nat := %d" % e["ARC_M_UNPACKED_OLD"])
     L.append("def arcUnpacked : Nat := %d" % e["ARC_M_UNPACKED"])
     L.append("def arcPacked : Nat := %d" % e["ARC_M_PACKED"])
+    L.append("")
+    t = f["mmcmp_tables"]
+    L.append("/-- MMCMP bit coder: escape thresholds and number of extra bits per code width (mmcmp.c) -/")
+    L.append("def mmCmd8 : List Nat := %s" % lean_bytes(t["cmd_8bits"]))
+    L.append("def mmFetch8 : List Nat := %s" % lean_bytes(t["fetch_8bit"]))
+    L.append("def mmCmd16 : List Nat := %s" % lean_bytes(t["cmd_16bit"]))
+    L.append("def mmFetch16 : List Nat := %s" % lean_bytes(t["fetch_16bit"]))
+    mf = f["mmcmp_flags"]
+    L.append("def mmFlagComp : Nat := %d" % mf["COMP"])
+    L.append("def mmFlagDelta : Nat := %d" % mf["DELTA"])
+    L.append("def mmFlag16Bit : Nat := %d" % mf["16BIT"])
+    L.append("def mmFlagAbs16 : Nat := %d" % mf["ABS16"])
     L.append("")
     L.append("/-- MD5Init state -/")
     L.append("def md5Init : List UInt32 := [%s]" % ", ".join("0x%08x" % x for x in f["md5init"]))
